@@ -87,6 +87,24 @@ ScaleLaw(f, x, w, a, c, r0, t) ==
        /\ e2.rr = t * t * e1.rr
        /\ e2.adj = e1.adj /\ e2.detH = e1.detH /\ e2.quad = e1.quad
 
+(* Scaling the WEIGHTS by t (no weights = all ones) multiplies Hw and rw by t: |rw|^2 by t^2,      *)
+(* adj(Hw^T Hw) by t^(2K-2), det by t^(2K) (K = M+P) and leaves the unweighted H alone, hence       *)
+(* chi2 scales by t^2 while Cov, correlation and band radius do not change at all.                  *)
+RECURSIVE IPow(_, _)
+IPow(b, e) == IF e = 0 THEN 1 ELSE b * IPow(b, e - 1)
+WeightScaleLaw(f, x, w, a, c, r0, t) ==
+  LET K == f.M + f.P
+      w1 == IF w = <<>> THEN [i \in 1..Len(x) |-> 1] ELSE w
+      w2 == [i \in 1..Len(x) |-> t * w1[i]]
+      e1 == StatEval(f, x, w1, a, c, r0)
+      e2 == StatEval(f, x, w2, a, c, r0)
+  IN (e1.lvl = 1 /\ e2.lvl = 1 /\ SatMul(IPow(t, 2 * K), Abs(e1.detH)) < Limit
+      /\ SatMul(IPow(t, 2 * K - 2), MaxAbs(e1.adj)) < Limit) =>
+       /\ Stationary(f, x, w2, a, c, r0)
+       /\ e2.rr = t * t * e1.rr
+       /\ e2.detH = IPow(t, 2 * K) * e1.detH
+       /\ \A i, j \in 1..K : e2.adj[i][j] = IPow(t, 2 * K - 2) * e1.adj[i][j]
+
 (* ---------------- theorems about the definitions ---------------- *)
 CovSym(e) == e.lvl = 1 => \A i, j \in 1..Len(e.adj) : e.adj[i][j] = e.adj[j][i]
 CovDiagNonNeg(e) == e.lvl = 1 => (e.detH > 0 /\ \A i \in 1..Len(e.adj) : e.adj[i][i] > 0)
